@@ -324,21 +324,17 @@ Qed.
 (* ------------------------------------------------------------------ *)
 (** * 4. tag tables *)
 
-(** the library's compile step succeeds for codec [der]: the tag tables of all
-    CHOICE alternatives (and, as in [BerAcceptBase.compiles], of all SEQUENCE /
-    SET components) can be built, BER's compile-time ordering of SET components
-    succeeds, and character string types are among those of the specification *)
+(** the tag table of the type can be built for codec [der] (along references,
+    IMPLICIT tags and CHOICE alternatives — the part of a type that decides its
+    identifier octets; components of SEQUENCE / SET / SEQUENCE OF are not
+    inspected, so the predicate also holds for recursive types) *)
 Fixpoint compiles_g (fuel : nat) (t : ty) : bool :=
   match fuel with
   | O => true
   | S f =>
     match t with
     | TRef n => match lookup n e with Some t' => compiles_g f t' | None => false end
-    | TTag _ t' => compiles_g f t'
-    | TSeq isset root ext =>
-      forallb (fun m => compiles_g f (m_ty m) && is_ok (alt f None (m_ty m))) (root ++ flat_additions ext) &&
-      (if isset && negb der then is_ok (sort_members_ber e f root) else true)
-    | TSeqOf _ el _ => compiles_g f el
+    | TTag tg t' => if t_explicit tg then true else compiles_g f t'
     | TChoice root ext =>
       forallb (fun m => compiles_g f (m_ty m) && is_ok (alt f None (m_ty m))) (alternatives root ext)
     | TStr k _ _ => match string_tag k with Some _ => true | None => false end
@@ -588,18 +584,6 @@ Proof.
   rewrite (H x (or_introl eq_refl)). f_equal. apply IH. intros a Ha. apply H. right. exact Ha.
 Qed.
 
-(** for BER, [compiles_g] is [BerAcceptBase.compiles] *)
-Lemma compiles_g_ber e : forall f t, compiles_g false e f t = compiles e f t.
-Proof.
-  induction f as [|f IH]; intros t; [reflexivity|].
-  destruct t; cbn [compiles_g compiles]; try reflexivity; try apply IH.
-  - f_equal.
-    + apply forallb_ext_in. intros m _. rewrite IH. reflexivity.
-    + destruct isset; reflexivity.
-  - apply forallb_ext_in. intros m _. rewrite IH. reflexivity.
-  - destruct (lookup name e); [apply IH|reflexivity].
-Qed.
-
 Corollary der_truncation numeric e fuel t v bs k :
   scope_enc numeric e fuel t = true -> scope_dec e fuel t = true -> compiles_g true e fuel t = true ->
   DerImpl.der_encode numeric fuel e t v = Ok bs -> small bs -> (k < length bs)%nat ->
@@ -607,13 +591,10 @@ Corollary der_truncation numeric e fuel t v bs k :
 Proof. unfold DerImpl.der_encode, DerImpl.der_decode, encode_top. apply enc_truncation. Qed.
 
 Corollary ber_truncation numeric e fuel t v bs k :
-  scope_enc numeric e fuel t = true -> scope_dec e fuel t = true -> compiles e fuel t = true ->
+  scope_enc numeric e fuel t = true -> scope_dec e fuel t = true -> compiles_g false e fuel t = true ->
   BerImpl.ber_encode numeric fuel e t v = Ok bs -> small bs -> (k < length bs)%nat ->
   exists err, BerImpl.ber_decode numeric fuel e t (firstn k bs) = Err err /\ is_decode_error err = true.
-Proof.
-  intros Hs Hd Hc. rewrite <- compiles_g_ber in Hc. revert Hs Hd Hc.
-  unfold BerImpl.ber_encode, BerImpl.ber_decode, encode_top. apply enc_truncation.
-Qed.
+Proof. unfold BerImpl.ber_encode, BerImpl.ber_decode, encode_top. apply enc_truncation. Qed.
 
 (** in terms of [in_scope] *)
 Corollary der_truncation_in_scope numeric e fuel t v bs k :
@@ -625,7 +606,7 @@ Proof.
 Qed.
 
 Corollary ber_truncation_in_scope numeric e fuel t v bs k :
-  in_scope numeric e fuel t = true -> compiles e fuel t = true ->
+  in_scope numeric e fuel t = true -> compiles_g false e fuel t = true ->
   BerImpl.ber_encode numeric fuel e t v = Ok bs -> small bs -> (k < length bs)%nat ->
   exists err, BerImpl.ber_decode numeric fuel e t (firstn k bs) = Err err /\ is_decode_error err = true.
 Proof.
